@@ -264,7 +264,31 @@ func FetchKeys(local string, localIDs []string, plans []ServerPlan, jitter bool)
 	return fetchWith(f, local, localIDs, plans)
 }
 
+// ErrTimeout is what a FetchKeys call that does not return within the watchdog time becomes.
+var ErrTimeout = errors.New("timeout")
+
+// Watchdog is how long a single FetchKeys call may take before it counts as deadlocked.
+var Watchdog = 5 * time.Second
+
 func fetchWith(f *gomatrixserverlib.DirectKeyFetcher, local string, localIDs []string, plans []ServerPlan) (map[string]string, error) {
+	type res struct {
+		m   map[string]string
+		err error
+	}
+	ch := make(chan res, 1)
+	go func() {
+		m, err := fetchWithNoWatchdog(f, local, localIDs, plans)
+		ch <- res{m, err}
+	}()
+	select {
+	case r := <-ch:
+		return r.m, r.err
+	case <-time.After(Watchdog):
+		return nil, ErrTimeout // the goroutines of the stuck call are abandoned
+	}
+}
+
+func fetchWithNoWatchdog(f *gomatrixserverlib.DirectKeyFetcher, local string, localIDs []string, plans []ServerPlan) (map[string]string, error) {
 	reqs := map[gomatrixserverlib.PublicKeyLookupRequest]spec.Timestamp{}
 	for _, id := range localIDs {
 		reqs[gomatrixserverlib.PublicKeyLookupRequest{ServerName: spec.ServerName(local), KeyID: gomatrixserverlib.KeyID(id)}] = 1
@@ -340,7 +364,10 @@ func FetchStress(seed int64, goroutines, iterations int) string {
 				}
 				got, err := fetchWith(f, "local.example", []string{"ed25519:l1"}, plans)
 				if err != nil {
-					v.add("FetchKeys error: %v", err)
+					v.add("FetchKeys over %d servers: %v", n, err)
+					if err == ErrTimeout {
+						return
+					}
 					continue
 				}
 				want := map[string]string{"local.example|ed25519:l1": "local"}
@@ -429,6 +456,110 @@ func EventStress(goroutines int) string {
 				v.add("EventID() gave %q and %q for one event", ids[0], ids[g])
 			}
 		}
+	}
+	return v.result()
+}
+
+// DNSBarrier: n goroutines look up n distinct hosts in one cache of the given size; the resolver
+// holds every call until all n are inside it (all lookups are then past their first critical
+// section), then lets them go. Returns the largest entry count ever seen under the lock and
+// the final one.
+func DNSBarrier(size, n int) (max, final int, note string) {
+	var arrived int32
+	release := make(chan struct{})
+	var once sync.Once
+	resolver := func(host string) ([]net.IPAddr, error) {
+		if int(atomic.AddInt32(&arrived, 1)) == n {
+			once.Do(func() { close(release) })
+		}
+		select {
+		case <-release:
+		case <-time.After(2 * time.Second):
+			note = "barrier not reached" // fewer than n calls got to the resolver
+			once.Do(func() { close(release) })
+		}
+		return []net.IPAddr{{IP: net.IPv4(127, 9, 9, byte(len(host)))}}, nil
+	}
+	cache := fclient.VerifNewDNSCache(size, time.Hour, []string{"0.0.0.0/0"}, nil, resolver)
+	var mx int32
+	see := func() {
+		l := int32(cache.VerifLen())
+		for {
+			old := atomic.LoadInt32(&mx)
+			if l <= old || atomic.CompareAndSwapInt32(&mx, old, l) {
+				return
+			}
+		}
+	}
+	done := make(chan struct{})
+	go func() {
+		for {
+			select {
+			case <-done:
+				return
+			default:
+				see()
+			}
+		}
+	}()
+	var wg sync.WaitGroup
+	for g := 0; g < n; g++ {
+		wg.Add(1)
+		go func(g int) {
+			defer wg.Done()
+			cache.VerifLookup(fmt.Sprintf("barrier-host-%03d.example", g))
+			see()
+		}(g)
+	}
+	wg.Wait()
+	close(done)
+	see()
+	return int(atomic.LoadInt32(&mx)), cache.VerifLen(), note
+}
+
+// TransportFreshStress: goroutines ask for transports of names never seen before while another
+// goroutine runs reaper passes back to back. A reaper pass must never meet an entry whose
+// lastUsed has not been stored (it would panic on the type assertion; in production that is the
+// timer goroutine, i.e. the process).
+func TransportFreshStress(goroutines, perGoroutine int) string {
+	var v violations
+	tr := fclient.VerifNewTransports()
+	stop := make(chan struct{})
+	reaperDone := make(chan struct{})
+	go func() {
+		defer close(reaperDone)
+		defer func() {
+			if r := recover(); r != nil {
+				v.add("reaper panicked while transports for new names were being added: %v", r)
+			}
+		}()
+		for passes := 0; passes < 200000; passes++ {
+			select {
+			case <-stop:
+				return
+			default:
+				tr.Reap()
+			}
+		}
+	}()
+	var wg sync.WaitGroup
+	for g := 0; g < goroutines; g++ {
+		wg.Add(1)
+		go func(g int) {
+			defer wg.Done()
+			for i := 0; i < perGoroutine; i++ {
+				name := fmt.Sprintf("fresh-%d-%d.example", g, i)
+				if tr.Get(name) == nil {
+					v.add("no transport for %s", name)
+				}
+			}
+		}(g)
+	}
+	wg.Wait()
+	close(stop)
+	<-reaperDone
+	if n := tr.Len(); n != goroutines*perGoroutine {
+		v.add("%d transports for %d names (nothing was old enough to be reaped)", n, goroutines*perGoroutine)
 	}
 	return v.result()
 }
